@@ -83,7 +83,7 @@ def gen_case(rng, max_ops, mirror=False, ncomp=5):
         ws = rng.choice(wss)
         kind = rng.weighted([("ins", 22), ("ext", 12), ("rem", 18), ("ead", 8), ("erm", 8), ("wrt", 6),
                              ("clr", 2), ("shr", 3), ("rsv", 3), ("rset", 2), ("cln", 3), ("clf", 3),
-                             ("srd", 4), ("eq", 3), ("drop", 1), ("new", 1), ("qry", 9), ("eqry", 4), ("nqry", 5), ("qwr", 3), ("mde", 6), ("pqry", 7), ("pqwr", 3), ("erm2", 4), ("xrg", 2), ("ead2", 4)])
+                             ("srd", 4), ("eq", 3), ("drop", 1), ("new", 1), ("qry", 9), ("eqry", 4), ("nqry", 5), ("qwr", 3), ("mde", 6), ("tde", 6), ("pqry", 7), ("pqwr", 3), ("erm2", 4), ("xrg", 2), ("ead2", 4)])
         if kind == "ins":
             mask = rng.choice(palette) if rng.chance(5, 6) else anymask()
             desc = rng.below(2)
@@ -237,6 +237,16 @@ def gen_case(rng, max_ops, mirror=False, ncomp=5):
             if rng.chance(1, 4):
                 muts.append(one_mutation())
             lines.append("mde %d %d %d %s" % (ws, dst, rng.below(2), " ; ".join(muts)))
+            live[dst] = set(live[ws])
+            freec[dst] = freec[ws]
+        elif kind == "tde":
+            dst = rng.below(nworlds)
+            if dst == ws:
+                continue
+            muts = ["%s %d" % (rng.weighted([("dup", 3), ("del", 3), ("swap", 3), ("inc", 2), ("dupn", 6), ("deln", 4), ("incn", 3), ("dups", 3), ("dels", 3)]), rng.below(400))
+                    for _ in range(1 if rng.chance(3, 4) else 2)]
+            lines.append("tde %d %d %d %s" % (ws, dst, rng.below(2), " ".join(muts)))
+            # whether it is accepted is not known here: later operations on dst name identifiers of ws
             live[dst] = set(live[ws])
             freec[dst] = freec[ws]
         elif kind == "eq":
@@ -1117,6 +1127,14 @@ class RefWorlds:
                                 n += 1
                 if ret != "n %d" % n:
                     fails.append(("C03" if k == "qwr" else "C09", "mutable query %s filter %s wrote %r components, expected %d" % (t[4], t[5], ret, n)))
+        elif k == "tde":
+            # (a rejected token-level mutation, or one whose source does not exist: `tde src dst hr …` as written)
+            dst = int(t[2]) if len(t) > 4 else int(t[1])
+            self.maps.pop(dst, None)
+            self.res.pop(dst, None)
+            self.ever.pop(dst, None)
+            if not (ret.startswith("err") or ret in ("none", "-", "")):
+                fails.append(("C11", "deserialization of a mutated token stream neither returned nor failed cleanly: %r" % ret))
         elif k == "mde":
             # the source world does not exist: the harness only clears the destination
             src, dst = int(t[1]), int(t[2])
@@ -1349,6 +1367,15 @@ def oracle_case(impl_case):
                 check_ledger = False
         elif k in ("new", "mde"):
             check_ledger = False
+        elif k == "tde":
+            check_ledger = False
+            got = Counter(st["ev"])
+            made = Counter({x[2:]: n for x, n in got.items() if x.startswith("E:")})
+            dropped = Counter({x[2:]: n for x, n in got.items() if x.startswith("D:")})
+            if dropped - made:
+                fails.append((i, "C11", "failed deserialization of a mutated token stream dropped values it never created or dropped them twice: %s" % sorted((dropped - made).elements())[:6]))
+            if made - dropped:
+                fails.append((i, "C11", "failed deserialization of a mutated token stream leaked values: %s (%s)" % (sorted((made - dropped).elements())[:6], st["ret"][:80])))
         elif k == "cde":
             content = parse_content(st["op"])
             nreg = ref.nreg
